@@ -74,6 +74,7 @@ package comdoc
 //@
 //@ func (*ComDoc).AddFile
 //@   property C18 C03
+//@   standalone
 //@   requires (r.SectorSize == 512 || r.SectorSize == 4096) && r.ShortSectorSize >= 1 && r.ShortSectorSize <= r.SectorSize && len(contents) <= 1073741824
 //@   requires len(r.SAT) <= 1073741824 && len(r.SSAT) <= 1073741824 && !samearr(r.SAT, r.SSAT)
 //@   ghost deleted bool = false
@@ -233,3 +234,20 @@ package comdoc
 //@   ensures @mini_stream_size_in_the_root_entry_never_shrinks r.Files[r.rootStorage].StreamSize >= old(r.Files[r.rootStorage].StreamSize)
 //@   ensures @mini_stream_covers_the_short_sector_written ret0 == nil ==> r.Files[r.rootStorage].StreamSize >= (shortSector + 1) * r.ShortSectorSize
 //@   before call invoke io.WriterAt.WriteAt(_, b, off): assert @a_whole_short_sector_is_written len(b) == r.ShortSectorSize
+//@
+//@ func (*ComDoc).writeShortSAT
+//@   property C18 C11
+//@   standalone
+//@   nopanic
+//@   requires (r.SectorSize == 512 || r.SectorSize == 4096) && r.Header != nil && len(r.SAT) <= 1073741824 && len(r.SSAT) <= 1073741824 && !samearr(r.SAT, r.SSAT)
+//@   before call (*ComDoc).makeFreeSectors(_, n, sh): assert @one_big_sector_per_block_of_the_short_table n == len(r.SSAT) / (r.SectorSize / 4) && !sh
+//@   loop 0 sig "for i, sector := range freeList" invariant -1 <= rangeindex && rangeindex < len(freeList) && perSector == r.SectorSize / 4 && (r.SectorSize == 512 || r.SectorSize == 4096) && \
+//@        len(freeList) == len(r.SSAT) / perSector && len(r.SSAT) <= 1073741824 && r.Header != nil && buf != nil && \
+//@        forall(k, 0, len(freeList), 0 <= freeList[k] && freeList[k] < len(r.SAT)) && (len(freeList) > 0 ==> !samearr(freeList, r.SAT)) && \
+//@        (rangeindex == -1 ==> previous == -2 && first == -2) && (rangeindex >= 0 ==> previous == freeList[rangeindex] && first == freeList[0])
+//@   ensures @header_count_is_the_number_of_sectors_the_short_table_needs ret0 == nil ==> r.Header.SSATSectorCount == len(r.SSAT) / (r.SectorSize / 4)
+//@   ensures @an_empty_short_table_has_no_chain ret0 == nil && len(r.SSAT) / (r.SectorSize / 4) == 0 ==> r.Header.SSATNextSector == -2
+//@   ghost fl []SecID = nil
+//@   on call (*ComDoc).makeFreeSectors(_, _, _) ret (l): fl = l
+//@   ensures @table_chain_starts_at_the_first_allocated_sector ret0 == nil && len(fl) > 0 ==> r.Header.SSATNextSector == fl[0]
+//@   ensures @first_sector_of_the_table_chain_is_in_the_big_table ret0 == nil && len(r.SSAT) / (r.SectorSize / 4) > 0 ==> 0 <= r.Header.SSATNextSector && r.Header.SSATNextSector < len(r.SAT)
